@@ -5,6 +5,7 @@
    (2) component theorems: the indexing / slicing code never panics, for every input (from C11).
    The rest of the interpreter is covered by exploration (registry sweep, program generator): see DESIGN.md. -/
 import Pangaea.Generated.C01
+import Pangaea.Object.Assertions
 import Pangaea.Theorems.C11
 namespace Pangaea.C01
 open Pangaea Pangaea.Index Pangaea.IndexSpec
@@ -26,6 +27,11 @@ theorem bound_consts_initialised :
 theorem arity_guards :
     (Generated.C01.arityGuards.all (fun g => g.2.2 < g.2.1)) = true ∧ Generated.C01.arityGuards.length ≥ 100 := by
   decide +kernel
+
+/-- **Unchecked type assertions.** The single-value type assertions of the interpreter's packages are exactly the
+    reviewed ones (Object/Assertions.lean gives, for each, the guard or invariant that makes it safe). -/
+theorem unchecked_assertions_are_the_reviewed_ones :
+    Generated.C01.uncheckedAssertions = Assertions.reviewed.map (·.1) := by decide +kernel
 
 /-- **Indexing never panics**: for every sequence, all int64-or-omitted bounds and every step, `valRange` and
     `strRange` return a value or ValueErr, never a Go panic (unchecked assertions of strRange included). -/
